@@ -960,12 +960,47 @@ func c01ItemsReachCells(c *Ctx, rule string) {
 	}
 	n := 0
 	for _, fn := range c.ModFuncs("") {
-		if !fn.Signature.Variadic() || fn.Object() == nil || !fn.Object().Exported() {
+		if fn.Object() == nil || len(fn.Params) == 0 {
 			continue
 		}
-		items := fn.Params[len(fn.Params)-1]
-		if sl, ok := items.Type().Underlying().(*types.Slice); !ok || !types.Identical(sl.Elem(), types.NewInterfaceType(nil, nil)) {
+		// the list of items: the variadic parameter of an exported builder, or the []interface{} parameter of an
+		// unexported helper to which every caller passes its own list unchanged
+		var items *ssa.Parameter
+		for _, par := range fn.Params {
+			if sl, ok := par.Type().Underlying().(*types.Slice); ok && types.Identical(sl.Elem(), types.NewInterfaceType(nil, nil)) {
+				items = par
+			}
+		}
+		if items == nil {
 			continue
+		}
+		if fn.Object().Exported() {
+			if !fn.Signature.Variadic() || items != fn.Params[len(fn.Params)-1] {
+				continue
+			}
+		} else {
+			idx := -1
+			for i, q := range fn.Params {
+				if q == items {
+					idx = i
+				}
+			}
+			okCallers, ncall := true, 0
+			for _, g := range c.ModFuncs("") {
+				eachInstr(g, func(ci ssa.Instruction) {
+					if staticCallee(ci) != fn {
+						return
+					}
+					ncall++
+					a, isPar := callCommon(ci).Args[idx].(*ssa.Parameter)
+					if !isPar || !g.Signature.Variadic() || a != g.Params[len(g.Params)-1] {
+						okCallers = false
+					}
+				})
+			}
+			if !okCallers || ncall == 0 {
+				continue
+			}
 		}
 		calls := 0
 		eachInstr(fn, func(in ssa.Instruction) {
